@@ -226,8 +226,8 @@ func runC01(args []string) error {
 	wg.Wait()
 	// a timeout under load is re-examined alone before it counts
 	for i, c := range valid {
-		if c.Impl.End == "timeout" && nTimeouts <= 4 {
-			c.Impl = c1RunYaegiChild(c.Src, 40*time.Second)
+		if c.Impl.End == "timeout" && (nTimeouts <= 4 || *tier == "thorough" && nTimeouts <= 12) {
+			c.Impl = c1RunYaegiChild(c.Src, 90*time.Second)
 			sm.count("yaegi-timeout-rerun")
 		}
 		if durs[i] > 5*time.Second {
